@@ -7,6 +7,7 @@ package props
 // LengthOfX(v) == number of bytes WriteX(v) writes.
 
 import (
+	"bufio"
 	"bytes"
 	"encoding/binary"
 	"fmt"
@@ -55,51 +56,104 @@ func c03Frames(rt *rapid.T) {
 	var stream bytes.Buffer
 	var frames []*frame.Frame
 	var lens []int
-	prefixParts := 0
+	prefixParts, edited := 0, 0
 	for i := 0; i < n; i++ {
 		fc := gen.Frame(rt, v, comp != compNone, genOpts())
 		prefixParts += fc.Optional
-		if spy != nil {
-			spy.in, spy.out = nil, nil
+		encodeAndCheck := func(phase string) ([]byte, bool) {
+			if spy != nil {
+				spy.in, spy.out = nil, nil
+			}
+			enc, err := encodeFrame(codec, fc.Frame)
+			if err != nil {
+				rt.Fatalf("EncodeFrame (%s) failed on a version-valid frame: %v\n%s", phase, err, renderFrame(fc, comp))
+			}
+			if fc.Frame.Header.Flags.Contains(primitive.HeaderFlagCompressed) && knownLz4("C03", spy) {
+				return nil, false // body cannot be decoded at all (open dependency finding); lengths are not judged on it
+			}
+			h := hdrLen(v)
+			if len(enc) < h {
+				rt.Fatalf("encoded frame shorter than a header: %d bytes", len(enc))
+			}
+			wire := int(int32(binary.BigEndian.Uint32(enc[h-4 : h])))
+			if wire != len(enc)-h {
+				rt.Fatalf("header on the wire (%s) declares body length %d but %d body bytes were emitted\n%s", phase, wire, len(enc)-h, renderFrame(fc, comp))
+			}
+			if int(fc.Frame.Header.BodyLength) != len(enc)-h {
+				rt.Fatalf("Header.BodyLength=%d after EncodeFrame (%s) but %d body bytes were emitted\n%s", fc.Frame.Header.BodyLength, phase, len(enc)-h, renderFrame(fc, comp))
+			}
+			// message-level length
+			mc := messageCodecFor(fc.Frame.Header.OpCode)
+			var mb bytes.Buffer
+			if err := mc.Encode(fc.Frame.Body.Message, &mb, v); err != nil {
+				rt.Fatalf("message Encode: %v", err)
+			}
+			el, err := mc.EncodedLength(fc.Frame.Body.Message, v)
+			if err != nil {
+				rt.Fatalf("EncodedLength failed on a version-valid message: %v", err)
+			}
+			if el != mb.Len() {
+				rt.Fatalf("EncodedLength=%d but Encode wrote %d bytes\n%s", el, mb.Len(), renderFrame(fc, comp))
+			}
+			// raw conversion
+			raw, err := codec.ConvertToRawFrame(fc.Frame.DeepCopy())
+			if err != nil {
+				rt.Fatalf("ConvertToRawFrame: %v", err)
+			}
+			if int(raw.Header.BodyLength) != len(raw.Body) {
+				rt.Fatalf("ConvertToRawFrame (%s): Header.BodyLength=%d, len(Body)=%d", phase, raw.Header.BodyLength, len(raw.Body))
+			}
+			return enc, true
 		}
-		enc, err := encodeFrame(codec, fc.Frame)
-		if err != nil {
-			rt.Fatalf("EncodeFrame failed on a version-valid frame: %v\n%s", err, renderFrame(fc, comp))
+		enc, ok := encodeAndCheck("first encoding")
+		if !ok {
+			return
 		}
-		if fc.Frame.Header.Flags.Contains(primitive.HeaderFlagCompressed) && knownLz4("C03", spy) {
-			return // body cannot be decoded at all (open dependency finding); lengths are not judged on it
-		}
-		h := hdrLen(v)
-		if len(enc) < h {
-			rt.Fatalf("encoded frame shorter than a header: %d bytes", len(enc))
-		}
-		wire := int(int32(binary.BigEndian.Uint32(enc[h-4 : h])))
-		if wire != len(enc)-h {
-			rt.Fatalf("header on the wire declares body length %d but %d body bytes were emitted\n%s", wire, len(enc)-h, renderFrame(fc, comp))
-		}
-		if int(fc.Frame.Header.BodyLength) != len(enc)-h {
-			rt.Fatalf("Header.BodyLength=%d after EncodeFrame but %d body bytes were emitted\n%s", fc.Frame.Header.BodyLength, len(enc)-h, renderFrame(fc, comp))
-		}
-		// message-level length
-		mc := messageCodecFor(fc.Frame.Header.OpCode)
-		var mb bytes.Buffer
-		if err := mc.Encode(fc.Frame.Body.Message, &mb, v); err != nil {
-			rt.Fatalf("message Encode: %v", err)
-		}
-		el, err := mc.EncodedLength(fc.Frame.Body.Message, v)
-		if err != nil {
-			rt.Fatalf("EncodedLength failed on a version-valid message: %v", err)
-		}
-		if el != mb.Len() {
-			rt.Fatalf("EncodedLength=%d but Encode wrote %d bytes\n%s", el, mb.Len(), renderFrame(fc, comp))
-		}
-		// raw conversion
-		raw, err := codec.ConvertToRawFrame(fc.Frame.DeepCopy())
-		if err != nil {
-			rt.Fatalf("ConvertToRawFrame: %v", err)
-		}
-		if int(raw.Header.BodyLength) != len(raw.Body) {
-			rt.Fatalf("ConvertToRawFrame: Header.BodyLength=%d, len(Body)=%d", raw.Header.BodyLength, len(raw.Body))
+		// the same Frame object, edited and encoded again (its header still holds the length of the first encoding: "when
+		// encoding a frame, this field is not read but is rather dynamically computed from the actual body length")
+		if rapid.IntRange(0, 2).Draw(rt, fmt.Sprintf("edit%d", i)) == 0 {
+			f := fc.Frame
+			var edits []string
+			if f.Header.IsResponse {
+				edits = append(edits, "tracingId")
+				if gen.AtLeast(v, 4) {
+					edits = append(edits, "warnings")
+				}
+			}
+			if gen.AtLeast(v, 4) {
+				edits = append(edits, "payload")
+			}
+			edits = append(edits, "message")
+			switch rapid.SampledFrom(edits).Draw(rt, fmt.Sprintf("edit%d/what", i)) {
+			case "tracingId":
+				if f.Body.TracingId == nil {
+					f.SetTracingId(gen.UUID(rt, "editTracingId"))
+				} else {
+					f.SetTracingId(nil)
+				}
+			case "warnings":
+				if len(f.Body.Warnings) == 0 {
+					f.SetWarnings([]string{"w1", gen.Str(rt, "editWarning")})
+				} else {
+					f.SetWarnings(nil)
+				}
+			case "payload":
+				if len(f.Body.CustomPayload) == 0 {
+					f.SetCustomPayload(map[string][]byte{"k": gen.Blob(rt, "editPayload", 300)})
+				} else {
+					f.SetCustomPayload(nil)
+				}
+			default:
+				for _, k := range gen.KindsFor(v) {
+					if k.Name == fc.Kind {
+						f.Body.Message = k.Draw(rt, v, genOpts())
+					}
+				}
+			}
+			if enc, ok = encodeAndCheck("second encoding after an edit"); !ok {
+				return
+			}
+			edited++
 		}
 		stream.Write(enc)
 		frames = append(frames, fc.Frame)
@@ -107,23 +161,42 @@ func c03Frames(rt *rapid.T) {
 	}
 	// sentinel bytes after the last frame must stay unread
 	stream.Write([]byte{0xde, 0xad})
-	var under io.Reader = bytes.NewReader(stream.Bytes())
-	if rapid.Bool().Draw(rt, "shortReads") {
-		under = &chunkReader{r: under, chunks: drawChunks(rt)}
+	// the stream is presented through the reader types callers use - the decoders treat some of them specially
+	all := append([]byte{}, stream.Bytes()...)
+	srcKind := rapid.SampledFrom([]string{"counting", "shortReads", "bytes.Buffer", "bytes.Reader", "bufio.Reader"}).Draw(rt, "source")
+	var src io.Reader
+	var consumed func() int
+	switch srcKind {
+	case "bytes.Buffer":
+		b := bytes.NewBuffer(all)
+		src, consumed = b, func() int { return len(all) - b.Len() }
+	case "bytes.Reader":
+		b := bytes.NewReader(all)
+		src, consumed = b, func() int { return len(all) - b.Len() }
+	case "bufio.Reader":
+		c := &countingReader{r: bytes.NewReader(all)}
+		b := bufio.NewReaderSize(c, rapid.SampledFrom([]int{16, 512, 4096, 1 << 16}).Draw(rt, "bufioSize"))
+		src, consumed = b, func() int { return c.n - b.Buffered() }
+	case "shortReads":
+		c := &countingReader{r: &chunkReader{r: bytes.NewReader(all), chunks: drawChunks(rt)}}
+		src, consumed = c, func() int { return c.n }
+	default:
+		c := &countingReader{r: bytes.NewReader(all)}
+		src, consumed = c, func() int { return c.n }
 	}
-	cr := &countingReader{r: under}
 	var decoded []*frame.Frame
 	for i, f := range frames {
-		before := cr.n
-		dec, err := codec.DecodeFrame(cr)
+		before := consumed()
+		dec, err := codec.DecodeFrame(src)
 		if err != nil {
-			rt.Fatalf("frame %d of %d in the stream failed to decode: %v", i, n, err)
+			rt.Fatalf("frame %d of %d in the stream (read through a %s) failed to decode: %v", i, n, srcKind, err)
 		}
-		if cr.n-before != lens[i] {
-			rt.Fatalf("DecodeFrame consumed %d bytes for frame %d, whose header+declared body is %d bytes (opcode %v, v%d, comp %s)", cr.n-before, i, lens[i], f.Header.OpCode, v, comp)
+		if consumed()-before != lens[i] {
+			rt.Fatalf("DecodeFrame consumed %d bytes of the %s for frame %d, whose header+declared body is %d bytes (opcode %v, v%d, comp %s)", consumed()-before, srcKind, i, lens[i], f.Header.OpCode, v, comp)
 		}
 		decoded = append(decoded, dec)
 	}
+	cr := src
 	for i, f := range frames { // compared only now: frames handed out earlier must survive later decodes
 		if d := diffFrames(f, decoded[i]); d != "" {
 			rt.Fatalf("frame %d of the stream decoded differently: %s", i, d)
@@ -136,7 +209,7 @@ func c03Frames(rt *rapid.T) {
 	h := stats.Hash(stream.Bytes())
 	rec.Case(prefixParts > 0 || n >= 2, h, func() string {
 		return fmt.Sprintf("stream of %d frames v=%d comp=%s sizes=%v first=%s", n, v, comp, lens, canon.Render(frames[0]))
-	}, fmt.Sprintf("nframes:%d", n), fmt.Sprintf("version:%d", v), "comp:"+comp.String())
+	}, fmt.Sprintf("nframes:%d", n), fmt.Sprintf("version:%d", v), "comp:"+comp.String(), "source:"+srcKind, fmt.Sprintf("re-encoded-after-edit:%v", edited > 0))
 }
 
 func TestC03Frames(t *testing.T) { rapid.Check(t, c03Frames) }
